@@ -373,9 +373,19 @@ func frameCounters(p *sim.Pipe) ([]int, error) { return rawCounters(p) }
 var errInjectedWrite = errors.New("injected transport write error")
 
 // injectedWriteError varies the kind of error a transport write fails with: a plain error, a timeout (what a write
-// deadline produces), a broken pipe, a short write.
+// deadline produces), a broken pipe, a short write, the "closed" family, a reset, an end-of-file.
 func injectedWriteError(k int) error {
-	switch k % 4 {
+	switch k % 9 {
+	case 4: // what a transport reports that considers itself closed while its read side still blocks
+		return &net.OpError{Op: "write", Net: "tcp", Err: net.ErrClosed}
+	case 5:
+		return os.ErrClosed
+	case 6:
+		return io.ErrClosedPipe
+	case 7:
+		return &net.OpError{Op: "write", Net: "tcp", Err: syscall.ECONNRESET}
+	case 8:
+		return io.EOF
 	case 1:
 		return &net.OpError{Op: "write", Net: "tcp", Err: os.ErrDeadlineExceeded}
 	case 2:
